@@ -87,12 +87,6 @@ theorem peer_close_exact (code : Nat) (reason : Bytes) :
     viaDriver (.peerCapsule code reason) = .appClosed code reason := by
   simp [viaDriver, direct, outcome, ConnError.withDriverError, ConnError.ofQuinn]
 
-/-- the code the library puts on the wire when it closes the transport itself -/
-def closeCodeOnWire : DriverError → Option Nat
-  | .appClosed _ _ => some H3Err.noError.toCode
-  | .proto e => some e.toCode
-  | .notConnected => none
-
 theorem close_codes : closeCodeOnWire (.appClosed 7 []) = some 0x100 ∧
     closeCodeOnWire (.proto .frameUnexpected) = some 0x105 ∧ closeCodeOnWire .notConnected = none := by decide
 
